@@ -344,6 +344,9 @@ def r7_exact_match_and_short_input(ctx):
            any(sym.canon(r.value) == sym.canon(sym.parse_expr(f"out[..., :(-{ws} + 1) or None]")) for r in valid), "; ".join(u(r.value) for r in valid), key="C13-R7|valid-trim")
 
 
+from ..through_time import make_rule as _mk_tt
+_through_time = _mk_tt("C13")
+
 RULES = [
     ("C13-R1", r1_trailing_trim),
     ("C13-R2", r2_hash_weights),
@@ -352,4 +355,5 @@ RULES = [
     ("C13-R5", r5_coverage_and_accumulation),
     ("C13-R6", r6_label_cache_keys),
     ("C13-R7", r7_exact_match_and_short_input),
+    ("C13-T1", _through_time),
 ]
